@@ -494,7 +494,11 @@ func TestC12_Envelopes(t *testing.T) {
 			c.Entry = rp.Pick(rt, "entry", "verifier.VerifyBlob", "verifier.VerifyBlob", "notation.VerifyBlob")
 		}
 		c.Opts = drawOpts(rt, c.Entry, b.Format, 1)
-		c.Opts.Media = rp.Pick(rt, "media", b.Format, b.Format, b.Format, b.Format, b.Format, b.Format, otherFormat(b.Format), "", "application/unknown", "application/JOSE+json", strings.Repeat("m", 5000))
+		if rapid.IntRange(0, 7).Draw(rt, "oddMedia") == 0 {
+			c.Opts.Media = rp.Pick(rt, "media", otherFormat(b.Format), "", "application/unknown", "application/JOSE+json", strings.Repeat("m", 5000))
+		} else {
+			c.Opts.Media = b.Format
+		}
 		if c.Opts.Ref != "digest" && rapid.IntRange(0, 2).Draw(rt, "keepOddRef") != 0 {
 			c.Opts.Ref = "digest" // odd references end before the envelope is looked at: keep them rare here
 		}
